@@ -5757,6 +5757,9 @@ class ConstControlT {
 	template <typename, typename, typename, typename...>
 	friend struct O_;
 
+	template <typename, typename, Prong, typename...>
+	friend struct OS_;
+
 	template <typename, typename>
 	friend class R_;
 
@@ -7564,6 +7567,9 @@ class EventControlT final
 {
 	template <typename, typename>
 	friend class R_;
+
+	template <typename, typename, Prong, typename...>
+	friend struct OS_;
 
 	template <typename, typename>
 	friend struct PreReactWrapperT;
@@ -13014,7 +13020,9 @@ OS_<TN_, TA_, NP_, TI_, TR_...>::widePreReact(EventControl& control,
 {
 	TaskStatus status;
 	status |= Initial  ::deepPreReact(control, event);
-	status |= Remaining::widePreReact(control, event);
+
+	if (!control._consumed)
+		status |= Remaining::widePreReact(control, event);
 
 	return status;
 }
@@ -13028,7 +13036,9 @@ OS_<TN_, TA_, NP_, TI_, TR_...>::wideReact(EventControl& control,
 {
 	TaskStatus status;
 	status |= Initial  ::deepReact(control, event);
-	status |= Remaining::wideReact(control, event);
+
+	if (!control._consumed)
+		status |= Remaining::wideReact(control, event);
 
 	return status;
 }
@@ -13042,7 +13052,9 @@ OS_<TN_, TA_, NP_, TI_, TR_...>::widePostReact(EventControl& control,
 {
 	TaskStatus status;
 	status |= Initial  ::deepPostReact(control, event);
-	status |= Remaining::widePostReact(control, event);
+
+	if (!control._consumed)
+		status |= Remaining::widePostReact(control, event);
 
 	return status;
 }
@@ -13055,7 +13067,9 @@ OS_<TN_, TA_, NP_, TI_, TR_...>::wideQuery(ConstControl& control,
 										   TEvent& event) const noexcept
 {
 	Initial  ::deepQuery(control, event);
-	Remaining::wideQuery(control, event);
+
+	if (!control._consumed)
+		Remaining::wideQuery(control, event);
 }
 
 #if HFSM2_PLANS_AVAILABLE()
